@@ -119,6 +119,11 @@ def sentinelText (name : String) (variant : Nat) : String :=
   | 8 => s!"module {name}\n\n"              -- a trailing blank line
   | _ => ""                                -- an EMPTY go.mod: no module line at all
 
+/-- the module path a NESTED go.mod declares: it need not mirror the directory — the main path plus a different
+suffix, the main path itself, a sibling of it, or an unrelated path -/
+def nestedNames (mainName : String) : List String :=
+  [mainName ++ "/gen", mainName ++ "/x/y", mainName, mainName ++ "2", "other.org/n", "nested", mainName ++ "/gen"]
+
 /-- sentinel variants `SetupBundle` can parse (for the main script's module) … -/
 def mainVariants : List Nat := [0, 0, 1, 5, 6, 7, 8]
 /-- … and for nested modules, whose go.mod is copied verbatim and never parsed: also empty and odd ones -/
@@ -174,6 +179,7 @@ def genLayout (idx : Nat) : Gen (Fs × Path × String × String) := do
   let name ← pick modNames
   let variant ← pick mainVariants
   let nv ← pick nestedVariants
+  let nname ← pick (nestedNames name)
   let bad ← chance 1 20
   let badVariant ← pick [2, 3, 4]
   let mainVariant := if bad then badVariant else variant
@@ -182,8 +188,8 @@ def genLayout (idx : Nat) : Gen (Fs × Path × String × String) := do
     match shape with
     | 0 => [(base, sentinelText name mainVariant)]
     | 1 => []
-    | 2 => [(base ++ nestedDir, sentinelText "nested" nv)]
-    | 3 => [(base, sentinelText name mainVariant), (base ++ nestedDir, sentinelText "other.org/n" nv)]
+    | 2 => [(base ++ nestedDir, sentinelText nname nv)]
+    | 3 => [(base, sentinelText name mainVariant), (base ++ nestedDir, sentinelText nname nv)]
     | _ => [(base.dropLast, sentinelText name mainVariant)]
   let n ← (do let k ← rand 5; pure (k + 2))
   let spaceNames ← chance 1 4
@@ -276,8 +282,9 @@ def genTwin : Gen (Fs × Path × List Imp) := do
   let name ← pick modNames
   let mv ← pick mainVariants
   let nv ← pick nestedVariants
+  let nname ← pick (nestedNames name)
   let sentinels : List (Path × String) :=
-    (if outer then [(base, sentinelText name mv)] else []) ++ nested.map (fun d => (base ++ d, sentinelText "nested.org/n" nv))
+    (if outer then [(base, sentinelText name mv)] else []) ++ nested.map (fun d => (base ++ d, sentinelText nname nv))
   let skeleton : Fs := sentinels.map (fun s => (s.1 ++ [sentinel], mkData s.2 0))
   let mut files : Fs := []
   let mut j := 0
@@ -361,10 +368,12 @@ def genRoutes : Gen (Fs × Path × List Imp) := do
   let mv ← pick mainVariants
   let nv ← pick nestedVariants
   let nv2 ← pick nestedVariants
+  let nname ← pick (nestedNames name)
+  let nname2 ← pick (nestedNames name)
   let n := base ++ nd
   let sentinels : List (Path × String) :=
-    (if outer then [(base, sentinelText name mv)] else []) ++ [(n, sentinelText "nested.org/n" nv)] ++
-    (if deeper then [(n ++ [comp "v"], sentinelText "deep.org/v" nv2)] else [])
+    (if outer then [(base, sentinelText name mv)] else []) ++ [(n, sentinelText nname nv)] ++
+    (if deeper then [(n ++ [comp "v"], sentinelText nname2 nv2)] else [])
   let skeleton : Fs := sentinels.map (fun s => (s.1 ++ [sentinel], mkData s.2 0))
   -- the same names everywhere, different contents
   let leaves : Fs :=
@@ -444,6 +453,14 @@ def corpus : List Case :=
              ("/srv/m/data.arrai", mkScript 100 []), ("/srv/m/sub/data.arrai", mkScript 10 []),
              ("/srv/m/util.arrai", mkScript 2 [])])
       (pathOf "/srv/m/main.arrai") w1 w2 false,
+    -- minimised past failure: a nested module whose declared path does not mirror its directory
+    mkCase "C15-corpus-nested-declared" "corpus" "good"
+      (mkFs [("/srv/app/go.mod", mkData "module github.com/acme/app\n" 0),
+             ("/srv/app/tools/gen/go.mod", mkData "module github.com/acme/app/gen\n" 0),
+             ("/srv/app/main.arrai", mkScript 0 [imp false "/val", imp true "/tools/gen/x"]),
+             ("/srv/app/val.arrai", mkScript 7 []), ("/srv/app/tools/gen/val.arrai", mkScript 42 []),
+             ("/srv/app/tools/gen/x.arrai", mkScript 1 [imp false "/val"])])
+      (pathOf "/srv/app/main.arrai") w1 w2 false,
     mkCase "C15-corpus-sentinel-nonl" "corpus" "KF-bundle-sentinel-syntax"
       (mkFs [("/srv/m/go.mod", mkData "module ex.com/m" 0), ("/srv/m/main.arrai", mkScript 0 [])])
       (pathOf "/srv/m/main.arrai") w1 w2 false ]
